@@ -26,6 +26,7 @@ package main
 //	events                                                  -> the metric events recorded since the last call, ';'-separated
 //	goroutines                                              -> <count>
 //	stacks                                                  -> goroutine profile, one line
+//	fds                                                     -> <number of open file descriptors>
 //	quit
 import (
 	"bufio"
@@ -161,6 +162,13 @@ func TestVerifDriver(t *testing.T) {
 			reply("%s", strings.Join(vm.take(), ";"))
 		case "goroutines":
 			reply("%d", runtime.NumGoroutine())
+		case "fds":
+			es, err := os.ReadDir("/proc/self/fd")
+			if err != nil {
+				reply("err %v", err)
+			} else {
+				reply("%d", len(es))
+			}
 		case "stacks":
 			var sb strings.Builder
 			pprof.Lookup("goroutine").WriteTo(&sb, 1)
